@@ -12,6 +12,7 @@ import (
 
 	"github.com/btcsuite/btcd/btcec/v2"
 	"github.com/elementsproject/peerswap/messages"
+	"github.com/elementsproject/peerswap/onchain"
 	"github.com/elementsproject/peerswap/swap"
 	"go.etcd.io/bbolt"
 )
@@ -22,7 +23,7 @@ func newEnv(r *Rng) *Env {
 	return &Env{
 		r: r, SwapsAllowed: true, LiquidEnabled: true, BitcoinEnabled: true, MinAmountMsat: 100000 * 1000,
 		PeerAllowed: true, PeerSuspicious: false, BtcNetwork: "regtest", LbtcAsset: lbtcAssetHex,
-		CsvBtc: 1008, CsvLbtc: 60, CurHeight: 1000 + uint32(r.Intn(5000)), Decode: map[string]DecodeRes{},
+		CsvBtc: onchain.BitcoinCsv, CsvLbtc: onchain.LiquidCsv, CurHeight: 1000 + uint32(r.Intn(5000)), Decode: map[string]DecodeRes{},
 	}
 }
 
@@ -130,6 +131,9 @@ type directed struct {
 	role, chain string
 	steps       []string
 }
+
+// registerDirected lets per-property files add their own scripted scenarios (init-time)
+func registerDirected(ds ...directed) { directedScenarios = append(directedScenarios, ds...) }
 
 var directedScenarios = []directed{
 	{"out_sender", "btc", []string{"start", "out_agreement", "otb", "tx_confirmed", "restart"}},
